@@ -254,6 +254,36 @@ def hash_probes(res):
             res.known_hits["F-HASH-FULL"] = "hash index: the table has 2520 slots and never grows; the 2521st entry is dropped and InsertEntry reports nothing (lookup returns no row id)"
         elif a != m:
             res.mismatches.append(("# hash probe (c) full table", "engine %s | hash-table model %s (last insert: %s)" % (a, m, last)))
+        # (d) a probe chain that crosses from the last slot of one block page into the next: entries past the boundary must be
+        #     inserted, found and removed like any other (no finding here: a difference from the model or from the expectation is reported)
+        db.cmd("mktable v a:i:h,b:i:n"); hm.ask("reset", 10)
+        def hv(k):
+            return db.cmd("hthash v 0 i:%d" % k)[3:]
+        ends, pairs = {}, []
+        for k in range(1, 400000):
+            hk = int(hm.ask("home " + hv(k), 10))
+            if hk % 252 == 251:
+                if hk in ends and ends[hk] != k:
+                    pairs.append((ends[hk], k, hk))
+                    if len(pairs) >= 2:
+                        break
+                else:
+                    ends.setdefault(hk, k)
+        for p, q, hk in pairs:
+            steps = [("ixins", p, (4, 1)), ("ixins", q, (4, 2)), ("get", q, "ok:4.2"), ("ixdel", q, (4, 2)), ("get", q, "ok:"), ("get", p, "ok:4.1"),
+                     ("ixins", q, (4, 3)), ("ixdel", p, (4, 1)), ("get", q, "ok:4.3"), ("get", p, "ok:"), ("ixdel", q, (4, 3)), ("get", q, "ok:")]
+            for op, kk, arg in steps:
+                if op == "get":
+                    a, m = db.cmd("ixscan v 0 i:%d" % kk), hm.ask("get " + hv(kk), 10)
+                    res.evaluations += 1
+                    if a != arg and len(res.oracle_failures) < 5:
+                        res.oracle_failures.append(("# hash index, keys %d and %d share the home slot %d (last slot of block page %d): the second entry lies in the next block page\n%s" % (p, q, hk, hk // 252, "\n".join(db.log[-14:])),
+                                                    "hash index: lookup of key %d returns %s, expected %s (probe chain crossing a block-page boundary)" % (kk, a, arg)))
+                    if a != m and len(res.mismatches) < 5:
+                        res.mismatches.append(("# hash probe (d) keys %d %d home %d" % (p, q, hk), "engine %s | hash-table model %s" % (a, m)))
+                else:
+                    db.cmd("%s v 0 i:%d %d %d" % (op, kk, arg[0], arg[1])); hm.ask("%s %s %d %d" % ("ins" if op == "ixins" else "del", hv(kk), arg[0], arg[1]), 10)
+        res.extra["hash_block_boundary_pairs"] = len(pairs)
         res.evaluations += 3
     finally:
         db.destroy(); hm.close()
